@@ -849,6 +849,13 @@ def corpus():
             yield dict(stream='resample', rows=[dict(rw) for rw in order], seed=4, nops=1,
                        meta=dict(meta, n=18, shape='corpus-y', order='reversed' if order is not rows else 'parent_first'),
                        ops=[dict(op='resample', res=4, method=method, skip_errors=True, inplace=False)])
+    # 4b. ids that do not fit a float64 (odd ids above 2**53) through the operations that rebuild the parent column from a
+    #     graph (heal / rewire go through rewire_skeleton): a detour through a float column loses the low bits of the parents
+    for off in (2 ** 53, 2 ** 60):
+        ids = [off + 2 * k + 1 for k in range(9)]
+        two = [dict(id=ids[k], parent=(ids[k - 1] if k not in (0, 5) else -1), x=(k if k < 5 else k), y=0, z=0) for k in range(9)]
+        yield dict(stream='hist', rows=two, seed=6, nops=1, meta=dict(meta, n=9, labeling='huge', shape='corpus-two-chains'),
+                   ops=[dict(op='heal', method='ALL', max_dist=None, min_size=None, drop_disc=False, mask=None, inplace=False)])
     # 5. two thick nodes -> resample (pins the somas) -> every node-dropping operation that does not go through subset_neuron
     base = [dict(id=i, parent=i + 1 if i < 20 else -1, x=i * 10, y=0, z=0, r=0.1) for i in range(1, 21)]
     base += [dict(id=i, parent=(i - 1 if i > 21 else 8), x=80, y=(j + 1) * 10, z=0, r=0.1) for j, i in enumerate(range(21, 27))]
